@@ -92,7 +92,80 @@ Report(e, r, d) ==
            observed |-> [f \in d |-> IF f \in StateFields THEN Logged(e.st, f)
                                      ELSE IF f = "out" THEN NormOut(e.out) ELSE e[f]]])>>)
 
-InitObs == [delivered |-> [p \in Parties |-> <<>>], sent |-> [p \in Parties |-> <<>>]]
+\* ------------------------------------------------------------------------
+\* Observation record and the properties evaluated on the observed behaviour
+\* ------------------------------------------------------------------------
+InitObsFam(fam) ==
+  [fam |-> fam,
+   delivered |-> [p \in Parties |-> <<>>],   \* <<text, flaggedUnencrypted, resent>> returned by Receive
+   accepted |-> [p \in Parties |-> <<>>],    \* texts accepted by Send while encrypted
+   lastsec |-> [p \in Parties |-> "none"],
+   wire |-> {},                               \* <<text, resent, wire id>> of every data message emitted
+   started |-> FALSE,
+   flagged |-> {}]
+InitObs == InitObsFam("none")
+
+HasEv(e, x) == \E i \in DOMAIN e.evs : e.evs[i] = x
+SecOf(e) == SelectSeq(e.evs, LAMBDA x : x \in {"sec:GoneSecure", "sec:GoneInsecure", "sec:StillSecure"})
+DataOuts(e) == {i \in DOMAIN e.out : e.out[i].t = "D"}
+IsPrefixSeq(a, b) == Len(a) <= Len(b) /\ \A i \in DOMAIN a : a[i] = b[i]
+TextsOf(sq) == [i \in DOMAIN sq |-> sq[i][1]]
+LiveRecvKeys(x) == {<<y, z>> : z \in ({x.cur, x.prev} \ {0}), y \in ({x.tcur, x.tprev} \ {0})}
+
+NextObs(e) ==
+  [obs EXCEPT
+     !.delivered[e.p] = IF e.ev = "Recv" /\ e.plain > 0
+                        THEN Append(@, <<e.plain, HasEv(e, "msg:ReceivedMessageUnencrypted"), e.prs>>) ELSE @,
+     !.accepted[e.p] = IF e.ev = "Send" /\ st[e.p].ms = "enc" /\ ~e.err THEN Append(@, e.text) ELSE @,
+     !.lastsec[e.p] = IF SecOf(e) # <<>> THEN SecOf(e)[Len(SecOf(e))] ELSE @,
+     !.wire = @ \cup {<<e.out[i].text, e.out[i].rs, e.out[i].id>> : i \in {j \in DataOuts(e) : e.out[j].text > 0}},
+     !.started = @ \/ e.st.auth \notin {"nil", "none"} \/ e.st.ms = "enc"]
+
+\* set of <<property, reason>> violated by event e (pre-state st, post observation o)
+PropViolations(e, o) ==
+  LET p == e.p
+      q == Other(e.p)
+      fifoData == o.fam = "fifo-data"
+  IN
+  (IF fifoData /\ e.ev = "Recv" /\ e.m.t = "D" /\ (e.err \/ HasEv(e, "msg:ReceivedMessageUnreadable") \/ HasEv(e, "msg:ReceivedMessageMalformed"))
+   THEN {<<"C04", "genuine data message rejected">>} ELSE {})
+  \cup (IF fifoData /\ ~IsPrefixSeq(TextsOf(o.delivered[p]), o.accepted[q])
+        THEN {<<"C04", "delivery is not a prefix of what the peer sent">>} ELSE {})
+  \cup (IF fifoData /\ e.ev = "Done" /\ e.qa = 0 /\ e.qb = 0
+           /\ \E r \in Parties : TextsOf(o.delivered[r]) # o.accepted[Other(r)]
+        THEN {<<"C04", "text lost at quiescence">>} ELSE {})
+  \cup (IF e.ev = "Recv" /\ e.plain > 0 /\ ~HasEv(e, "msg:ReceivedMessageUnencrypted") /\ ~e.prs
+           /\ \E i \in DOMAIN obs.delivered[p] : obs.delivered[p][i][1] = e.plain /\ ~obs.delivered[p][i][2] /\ ~obs.delivered[p][i][3]
+        THEN {<<"C05", "text delivered twice">>} ELSE {})
+  \cup (IF e.ev # "Done" /\ e.st.ms = "enc" /\ \E i \in DataOuts(e) : TupSet(e.out[i].discl) \cap LiveRecvKeys(e.st) # {}
+        THEN {<<"C09", "disclosed MAC key of a key pair that is still accepted">>} ELSE {})
+  \cup (IF e.ev # "Done" /\ ((e.st.ms = "enc") # (o.lastsec[p] \in {"sec:GoneSecure", "sec:StillSecure"}))
+        THEN {<<"C18", "encrypted state and security events disagree">>} ELSE {})
+  \cup (IF e.ev # "Done" /\ Cardinality({i \in DataOuts(e) : e.out[i].rs}) > 1
+        THEN {<<"C18", "more than one message resent">>} ELSE {})
+  \cup (IF e.ev # "Done" /\ \E i \in DataOuts(e) : e.out[i].text > 0 /\
+             \E w \in obs.wire : w[1] = e.out[i].text /\ w[2] = e.out[i].rs /\ w[3] # e.out[i].id
+        THEN {<<"C18", "text transmitted more than once">>} ELSE {})
+  \cup (IF e.ev # "Done" /\ \E i \in DOMAIN e.out : e.out[i].t = "P" /\ e.out[i].text # 0 /\
+             (e.ev # "Send" \/ st[p].ms \in {"enc", "fin"} \/ st[p].pol.req)
+        THEN {<<"C03", "user text emitted in clear">>} ELSE {})
+  \cup (IF e.ev # "Done" /\ e.st.ms = "enc" /\ e.st.nrsq > 1
+        THEN {<<"C19", "resend queue retains more than the last message">>} ELSE {})
+  \cup (IF e.ev # "Done" /\ e.st.ms = "enc" /\ e.st.nctr > 4
+        THEN {<<"C19", "counter table exceeds the live key pairs">>} ELSE {})
+  \cup (IF e.ev # "Done" /\ e.st.ms = "enc" /\ e.st.nmac > 4
+        THEN {<<"C19", "MAC key history exceeds the live key pairs">>} ELSE {})
+  \cup (IF e.ev # "Done" /\ e.st.ms = "enc" /\ e.st.npend > 8
+        THEN {<<"C19", "undisclosed MAC key list grows">>} ELSE {})
+  \cup (IF e.ev # "Done" /\ e.st.inj > 0
+        THEN {<<"C19", "injected messages retained after the call">>} ELSE {})
+  \cup (IF e.ev = "Done" /\ o.fam = "ake" /\ e.qa = 0 /\ e.qb = 0 /\ o.started /\
+             ~(/\ st["A"].ms = "enc" /\ st["B"].ms = "enc" /\ st["A"].sess = st["B"].sess
+               /\ st["A"].peer = "B" /\ st["B"].peer = "A" /\ st["A"].rev # st["B"].rev)
+        THEN {<<"C07", "key exchange did not complete">>} ELSE {})
+
+ReportProp(e, v) ==
+  PrintT(<<"PROP", ToJson([line |-> l, i |-> e.i, ev |-> e.ev, p |-> e.p, prop |-> v[1], reason |-> v[2]])>>)
 
 TraceInit ==
   /\ l = 1
@@ -102,23 +175,33 @@ TraceInit ==
 
 DoInit(e) ==
   /\ st' = [p \in Parties |-> InitParty(p, PolOf(e.pol[p]), e.ver[p])]
-  /\ obs' = InitObs
+  /\ obs' = InitObsFam(e.fam)
   /\ mism' = mism
 
 DoStep(e) ==
   LET r == Apply(e)
       d == ResultDiffs(e, r) \cup StateDiffs(e, r)
+      o == NextObs(e)
+      pv == {v \in PropViolations(e, o) : v \notin obs.flagged}
   IN /\ st' = [st EXCEPT ![e.p] = Resync(r.s, e.st)]
      /\ IF d = {} THEN mism' = mism ELSE /\ Report(e, r, d)
                                          /\ mism' = mism + 1
-     /\ obs' = [obs EXCEPT
-                  !.delivered[e.p] = IF e.ev = "Recv" /\ e.plain > 0 THEN Append(@, e.plain) ELSE @,
-                  !.sent[e.p] = IF e.ev = "Send" /\ st[e.p].ms = "enc" /\ ~e.err THEN Append(@, e.text) ELSE @]
+     /\ \A v \in pv : ReportProp(e, v)
+     /\ obs' = [o EXCEPT !.flagged = @ \cup pv]
+
+DoDone(e) ==
+  LET pv == {v \in PropViolations(e, obs) : v \notin obs.flagged}
+  IN /\ \A v \in pv : ReportProp(e, v)
+     /\ obs' = [obs EXCEPT !.flagged = @ \cup pv]
+     /\ UNCHANGED <<st, mism>>
 
 TraceNext ==
   /\ l <= Len(Trace)
   /\ l' = l + 1
-  /\ LET e == Trace[l] IN IF e.ev = "Init" THEN DoInit(e) ELSE DoStep(e)
+  /\ LET e == Trace[l] IN
+       CASE e.ev = "Init" -> DoInit(e)
+         [] e.ev = "Done" -> DoDone(e)
+         [] OTHER -> DoStep(e)
 
 TraceSpec == TraceInit /\ [][TraceNext]_vars
 
